@@ -3,7 +3,7 @@
       n<hex> number | x<hex> bytes/string/int256 | t/f | ('v v ...) vector |
       ('r 'Name ('Field v) ...) record ('_ = unnamed; nil fields are omitted). *)
 From Coq Require Import String Ascii List NArith Bool.
-From Tongo Require Import Lib.Bits Lib.Res Lib.Sx Spec.TlWire Model.Tl Model.TlMatch
+From Tongo Require Import Lib.Bits Lib.Res Lib.Sx Spec.TlWire Model.Tl Model.TlMatch Model.TlHand
      Generated.TlSchema Generated.TlBindings.
 Import ListNotations.
 Local Open Scope string_scope.
@@ -274,6 +274,137 @@ Definition run_camel (a : sx) : sx :=
   | _ => sx_err "camel"
   end.
 
+(** basic Go kinds and vectors of them: descriptor 'u32 | 'u64 | 'bytes | 'string |
+    'bool | 'int256 | ('vec d) | 'TypeName  ->  Go type and TL type *)
+Fixpoint desc_of_sx (s : sx) : option (gty * ty) :=
+  match s with
+  | SA a =>
+      if String.eqb a "u32" then Some (GU32, TInt)
+      else if String.eqb a "u64" then Some (GU64, TLong)
+      else if String.eqb a "bytes" then Some (GBytes, TBytes)
+      else if String.eqb a "string" then Some (GString, TString)
+      else if String.eqb a "bool" then Some (GBool, TBool)
+      else if String.eqb a "int256" then Some (GInt256, TInt256)
+      else match spec_target a with Some (TType t) => Some (GNamed a, t) | _ => None end
+  | SL [SA _; d] => match desc_of_sx d with Some (g, t) => Some (GSlice g, TVector t) | None => None end
+  | _ => None
+  end.
+
+(* c10.bmarshal: (desc value) -> tl.Marshal(value); the spec must agree where defined *)
+Definition run_bmarshal (a : sx) : sx :=
+  match a with
+  | SL [d; sv] =>
+      match desc_of_sx d, value_of_sx sv with
+      | Some (g, t), Some v =>
+          let r := go_marshal tl_bindings g v in
+          match tl_encode gonm tl_types t v with
+          | Some e => match r with
+                      | Ok b => if bytes_eqb e b then SBytes b else SA "specdiff"
+                      | _ => SA "specdiff"
+                      end
+          | None => SA "nonspec"
+          end
+      | _, _ => sx_err "bmarshal"
+      end
+  | _ => sx_err "bmarshal"
+  end.
+
+(* c10.bunmarshal: (desc bytes) -> (value, unread); the spec must agree where defined *)
+Definition run_bunmarshal (a : sx) : sx :=
+  match a with
+  | SL [d; SBytes bs] =>
+      match desc_of_sx d with
+      | Some (g, t) =>
+          let r := go_unmarshal tl_bindings g bs in
+          match tl_decode gonm tl_types t bs with
+          | Some (v, rest) =>
+              match r with
+              | (Ok v', s) =>
+                  if value_eqb v v' && bytes_eqb rest (inp s) then out_unmarshal r else SA "specdiff"
+              | _ => SA "specdiff"
+              end
+          | None => out_unmarshal r
+          end
+      | None => sx_err "bunmarshal"
+      end
+  | _ => sx_err "bunmarshal"
+  end.
+
+(** hand-written codecs (Model/TlHand.v); every marshal is compared with tl_encode of
+    the lite_api.tl declaration, every unmarshal with tl_decode *)
+Definition check_enc (c : string) (v : value) (b : bytes) : sx :=
+  match tl_encode gonm tl_types (TBare c) v with
+  | Some e => if bytes_eqb e b then SBytes b else SA "specdiff"
+  | None => SA "nonspec"
+  end.
+Definition dec_agrees (c : string) (bs : bytes) (v : value) (rest : bytes) : bool :=
+  match tl_decode gonm tl_types (TBare c) bs with
+  | Some (v', rest') => value_eqb v v' && bytes_eqb rest rest'
+  | None => false
+  end.
+
+Definition hand_account (rest : list sx) : sx :=
+  match rest with
+  | [SA _; SN w; SBytes ad] =>
+      check_enc "liteServer.accountId" (val_account_id w ad) (hand_account_marshal w ad)
+  | [SA _; SBytes bs] =>
+      match hand_account_unmarshal bs with
+      | Some (w, ad, rest) =>
+          if dec_agrees "liteServer.accountId" bs (val_account_id w ad) rest
+          then SL [SN w; SBytes ad; sx_nat (length rest)] else SA "specdiff"
+      | None => SA "err"
+      end
+  | _ => sx_err "hand"
+  end.
+Definition hand_blockid (rest : list sx) : sx :=
+  match rest with
+  | [SA _; SN w; SN sh; SN sq] =>
+      check_enc "tonNode.blockId" (val_block_id w sh sq) (hand_blockid_marshal w sh sq)
+  | [SA _; SBytes bs] =>
+      match hand_blockid_unmarshal bs with
+      | Some (w, sh, sq, rest) =>
+          if dec_agrees "tonNode.blockId" bs (val_block_id w sh sq) rest
+          then SL [SN w; SN sh; SN sq; sx_nat (length rest)] else SA "specdiff"
+      | None => SA "err"
+      end
+  | _ => sx_err "hand"
+  end.
+Definition hand_blockidext (rest : list sx) : sx :=
+  match rest with
+  | [SA _; SN w; SN sh; SN sq; SBytes rh; SBytes fh] =>
+      check_enc "tonNode.blockIdExt" (val_block_id_ext w sh sq rh fh) (hand_blockidext_marshal w sh sq rh fh)
+  | [SA _; SBytes bs] =>
+      match hand_blockidext_unmarshal bs with
+      | Some (w, sh, sq, rh, fh) =>
+          if dec_agrees "tonNode.blockIdExt" bs (val_block_id_ext w sh sq rh fh) []
+          then SL [SN w; SN sh; SN sq; SBytes rh; SBytes fh] else SA "specdiff"
+      | None => SA "err"
+      end
+  | _ => sx_err "hand"
+  end.
+(* UnmarshalTL of (TL bytes of a valid stack's BOC ++ junk): how much is left unread *)
+Definition hand_vmstack (rest : list sx) : sx :=
+  match rest with
+  | [SBytes boc; SBytes junk] =>
+      match hand_vmstack_unframe (enc_bytes boc ++ junk) with
+      | (Ok data, s) => if bytes_eqb data boc then sx_nat (length (inp s)) else SA "specdiff"
+      | _ => SA "err"
+      end
+  | _ => sx_err "hand"
+  end.
+
+(* c10.hand: ('accountid|'blockid|'blockidext 'm fields.. | 'u bytes), ('vmstack boc junk) *)
+Definition run_hand (a : sx) : sx :=
+  match a with
+  | SL (SA t :: rest) =>
+      if String.eqb t "accountid" then hand_account rest
+      else if String.eqb t "blockid" then hand_blockid rest
+      else if String.eqb t "blockidext" then hand_blockidext rest
+      else if String.eqb t "vmstack" then hand_vmstack rest
+      else sx_err "hand"
+  | _ => sx_err "hand"
+  end.
+
 Definition run (name : string) (a : sx) : sx :=
   let is x := String.eqb name x in
   if is "c10.marshal" then run_marshal_any a
@@ -285,4 +416,7 @@ Definition run (name : string) (a : sx) : sx :=
   else if is "c10.sizeof" then run_sizeof a
   else if is "c10.camel" then run_camel a
   else if is "c10.enclen" then run_enclen a
+  else if is "c10.bmarshal" then run_bmarshal a
+  else if is "c10.bunmarshal" then run_bunmarshal a
+  else if is "c10.hand" then run_hand a
   else sx_err "unknown case kind".
